@@ -72,7 +72,7 @@ impl ClassSet {
         }
     }
 
-    fn node(self, icase: bool, negate_set: bool) -> ir::Node {
+    fn node(mut self, icase: bool, negate_set: bool) -> ir::Node {
         let codepoints = if icase {
             unicode::add_icase_code_points(self.codepoints)
         } else {
@@ -83,13 +83,21 @@ impl ClassSet {
             invert: negate_set,
             cps: codepoints,
         });
-        if self.alternatives.0.is_empty() {
-            bracket
-        } else if codepoints_empty {
-            self.alternatives.into_node(icase)
-        } else {
-            make_alt(Vec::from([self.alternatives.into_node(icase), bracket]))
+        // Strings are tried longest first, so the empty string comes after the single
+        // code points.
+        let has_empty_string = self.alternatives.0.iter().any(|s| s.is_empty());
+        self.alternatives.0.retain(|s| !s.is_empty());
+        let mut nodes = Vec::new();
+        if !self.alternatives.0.is_empty() {
+            nodes.push(self.alternatives.into_node(icase));
         }
+        if !codepoints_empty || (nodes.is_empty() && !has_empty_string) {
+            nodes.push(bracket);
+        }
+        if has_empty_string {
+            nodes.push(ir::Node::Empty);
+        }
+        make_alt(nodes)
     }
 
     fn union_operand(&mut self, operand: ClassSetOperand) {
@@ -1219,18 +1227,14 @@ where
                             match self.peek() {
                                 Some(0x7D /* } */) => {
                                     self.consume('}');
-                                    if !alternative.is_empty() {
-                                        alternatives.push(alternative.into_boxed_slice());
-                                    }
+                                    // ClassString :: [empty] denotes the empty string.
+                                    alternatives.push(alternative.into_boxed_slice());
                                     break;
                                 }
                                 Some(0x7C /* | */) => {
                                     self.consume('|');
-                                    if !alternative.is_empty() {
-                                        let alternative = mem::take(&mut alternative).into_boxed_slice();
-                                        alternatives.push(alternative);
-
-                                    }
+                                    let alternative = mem::take(&mut alternative).into_boxed_slice();
+                                    alternatives.push(alternative);
                                 }
                                 Some(_) => {
                                     alternative.push(self.consume_class_set_character()?);
